@@ -48,7 +48,7 @@ def oneperchar(run, fx):
         okoff = False
         if itp and off['k'] == 'BinaryOperator' and off['op'] == '-':
             l, r_ = off['c'][0], off['c'][1]
-            lvid = [x.get('vid') for x in fn.walk(l) if x['k'] == 'DeclRefExpr']
+            lvid = [x.get('vid') for x in fn.walk(l) if x['k'] == 'DeclRefExpr'] + [x.get('vid') for x in fn.walk(fn.deref(l)) if x['k'] == 'DeclRefExpr']   # also through a const local (`here = c`)
             rb = fn.strip_all_casts(r_)
             if itp[0]['vid'] in lvid and rb['k'] == 'DeclRefExpr' and rb.get('vid') in fn.const_init and \
                     any(x['k'] == 'DeclRefExpr' and x.get('vid') == itp[0]['vid'] for x in fn.walk(fn.const_init[rb['vid']])):
